@@ -443,10 +443,12 @@ func main() {
 
 	// ---- corpus: witnesses of the defects found on the unchanged tree ----
 	h.decode([]byte{0x40, 1, 2, 3, 4, 0x02, 5, 0, 0xaa, 0xbb, 7, 0xcc, 0xdd, 9, 9, 9, 9}, 3, "corpus") // C10-1
-	h.cmdDecode(true, []byte{128, 0xaa, 0xbb, 0xcc}, 2)                                              // C10-1b
-	h.encFRM([]byte{1, 2, 3, 4, 5}, 27)                                                              // C10-2
-	h.decryptJA(r.Bytes(12), 20)                                                                     // C10-4
-	h.reuseCorpus()                                                                                  // C10-3
+	h.decode([]byte{0x40, 1, 2, 3, 4, 0x02, 5, 0, 0xaa, 0xbb, 0, 9, 9, 9, 9}, 2, "corpus")             // FPort 0 + FOpts, empty FRMPayload: refused (C08 fix)
+	h.decode([]byte{0x40, 1, 2, 3, 4, 0x00, 5, 0, 0, 9, 9, 9, 9}, 0, "corpus")                         // FPort 0, no FOpts, empty FRMPayload: accepted
+	h.cmdDecode(true, []byte{128, 0xaa, 0xbb, 0xcc}, 2)                                                // C10-1b
+	h.encFRM([]byte{1, 2, 3, 4, 5}, 27)                                                                // C10-2
+	h.decryptJA(r.Bytes(12), 20)                                                                       // C10-4
+	h.reuseCorpus()                                                                                    // C10-3
 
 	// ---- decode ----
 	for i := 0; i < 110*mult; i++ {
